@@ -181,6 +181,8 @@ def eval_app(v, env):
     if fn == "slice":
         vals = [evaluate(x, env) for x in a]
         return slice(*[None if x is None else int(_num(x)) for x in vals])
+    if fn == "reshape" and len(a) == 2 and a[1] == Const(-1):
+        fn, a = "flatten", a[:1]
     if fn in ("flatten", "ravel"):
         x = E(0)
         out = []
